@@ -36,7 +36,7 @@ func init() {
 		wait, why := c07Guards(c07Method(co, "Coordinator", "waitForStart", 5))
 		if wait == nil || len(wait) != 2 {
 			if why == "" {
-				why = "expected two `if … { continue }` sender tests, found " + itoaS(len(wait))
+				why = "expected two `if … { continue }` sender tests, found " + c07Itoa(len(wait))
 			}
 			o.Unavailable("waitGuards", why)
 			wait = nil
@@ -47,7 +47,7 @@ func init() {
 		watch, why := c07Guards(c07Method(co, "Coordinator", "watchExecution", 3))
 		if watch == nil || len(watch) != 1 {
 			if why == "" {
-				why = "expected one `if … { continue }` sender test, found " + itoaS(len(watch))
+				why = "expected one `if … { continue }` sender test, found " + c07Itoa(len(watch))
 			}
 			o.Unavailable("watchGuard", why)
 			watch = nil
@@ -85,7 +85,7 @@ func init() {
 	}
 }
 
-func itoaS(i int) string { return strconv.Itoa(i) }
+func c07Itoa(i int) string { return strconv.Itoa(i) }
 
 func c07Funs(vars string, bodies []string) []string {
 	out := []string{}
@@ -104,8 +104,8 @@ func c07Method(f *ast.File, recv, name string, nparams int) *ast.FuncDecl {
 	return nil
 }
 
-// paramOfType returns the name of the first parameter whose type prints as one of the given strings.
-func paramOfType(fd *ast.FuncDecl, types ...string) string {
+// c07ParamOfType returns the name of the first parameter whose type prints as one of the given strings.
+func c07ParamOfType(fd *ast.FuncDecl, types ...string) string {
 	if fd == nil {
 		return ""
 	}
@@ -119,30 +119,30 @@ func paramOfType(fd *ast.FuncDecl, types ...string) string {
 	return ""
 }
 
-// boolTerm translates a boolean expression built from &&, ||, !, parentheses and atoms.
-func boolTerm(e ast.Expr, atom func(ast.Expr) (string, bool)) (string, bool) {
+// c07BoolTerm translates a boolean expression built from &&, ||, !, parentheses and atoms.
+func c07BoolTerm(e ast.Expr, atom func(ast.Expr) (string, bool)) (string, bool) {
 	if s, ok := atom(e); ok {
 		return s, true
 	}
 	switch x := e.(type) {
 	case *ast.ParenExpr:
-		return boolTerm(x.X, atom)
+		return c07BoolTerm(x.X, atom)
 	case *ast.UnaryExpr:
 		if x.Op == token.NOT {
-			s, ok := boolTerm(x.X, atom)
+			s, ok := c07BoolTerm(x.X, atom)
 			return "(!" + s + ")", ok
 		}
 	case *ast.BinaryExpr:
 		if x.Op == token.LAND || x.Op == token.LOR {
-			l, ok1 := boolTerm(x.X, atom)
-			r, ok2 := boolTerm(x.Y, atom)
+			l, ok1 := c07BoolTerm(x.X, atom)
+			r, ok2 := c07BoolTerm(x.Y, atom)
 			return "(" + l + map[token.Token]string{token.LAND: " && ", token.LOR: " || "}[x.Op] + r + ")", ok1 && ok2
 		}
 	}
 	return "false", false
 }
 
-func stripPretty(e ast.Expr) ast.Expr {
+func c07StripPretty(e ast.Expr) ast.Expr {
 	if c, ok := e.(*ast.CallExpr); ok && len(c.Args) == 0 {
 		if s, ok := c.Fun.(*ast.SelectorExpr); ok && (s.Sel.Name == "Pretty" || s.Sel.Name == "String") {
 			return s.X
@@ -151,20 +151,20 @@ func stripPretty(e ast.Expr) ast.Expr {
 	return e
 }
 
-func isFrom(e ast.Expr) bool {
-	s, ok := stripPretty(e).(*ast.SelectorExpr)
+func c07IsFrom(e ast.Expr) bool {
+	s, ok := c07StripPretty(e).(*ast.SelectorExpr)
 	return ok && s.Sel.Name == "From"
 }
 
 // c07Guards: the `if <cond> { … continue }` statements of fd whose condition mentions <something>.From and the peer.ID
 // parameter; each condition as a Lean Bool over `known` (coordinator ≠ "") and `same` (From = coordinator).
 func c07Guards(fd *ast.FuncDecl) ([]string, string) {
-	coord := paramOfType(fd, "peer.ID")
+	coord := c07ParamOfType(fd, "peer.ID")
 	if fd == nil || coord == "" {
 		return nil, "method or its peer.ID parameter not found"
 	}
 	isCoord := func(e ast.Expr) bool {
-		id, ok := stripPretty(e).(*ast.Ident)
+		id, ok := c07StripPretty(e).(*ast.Ident)
 		return ok && id.Name == coord
 	}
 	atom := func(e ast.Expr) (string, bool) {
@@ -180,7 +180,7 @@ func c07Guards(fd *ast.FuncDecl) ([]string, string) {
 				return "known", true
 			}
 			return "(!known)", true
-		case (isFrom(b.X) && isCoord(b.Y)) || (isCoord(b.X) && isFrom(b.Y)): // From ==/!= coordinator (with or without Pretty())
+		case (c07IsFrom(b.X) && isCoord(b.Y)) || (isCoord(b.X) && c07IsFrom(b.Y)): // From ==/!= coordinator (with or without Pretty())
 			if neg {
 				return "(!same)", true
 			}
@@ -198,7 +198,7 @@ func c07Guards(fd *ast.FuncDecl) ([]string, string) {
 		mentionsFrom, mentionsCoord := false, false
 		Walk(is.Cond, func(m ast.Node) bool {
 			if e, ok := m.(ast.Expr); ok {
-				if isFrom(e) {
+				if c07IsFrom(e) {
 					mentionsFrom = true
 				}
 				if id, ok := e.(*ast.Ident); ok && id.Name == coord {
@@ -220,7 +220,7 @@ func c07Guards(fd *ast.FuncDecl) ([]string, string) {
 			bad = "a sender test that does not `continue`"
 			return true
 		}
-		t, ok := boolTerm(is.Cond, atom)
+		t, ok := c07BoolTerm(is.Cond, atom)
 		if !ok {
 			bad = "a sender test of a shape the translator does not understand"
 			return true
@@ -237,7 +237,7 @@ func c07Guards(fd *ast.FuncDecl) ([]string, string) {
 // c07Admission: in initiate, the `if <cond> { R = append(R, X.From) }` statement; cond over
 // excl = slices.Contains(<the []peer.ID parameter>, X.From), present = slices.Contains(R, X.From).
 func c07Admission(fd *ast.FuncDecl) (string, string) {
-	excl := paramOfType(fd, "[]peer.ID", "peer.IDSlice")
+	excl := c07ParamOfType(fd, "[]peer.ID", "peer.IDSlice")
 	if fd == nil || excl == "" {
 		return "", "method or its excluded-peers parameter not found"
 	}
@@ -252,13 +252,13 @@ func c07Admission(fd *ast.FuncDecl) (string, string) {
 			return true
 		}
 		call, ok := as.Rhs[0].(*ast.CallExpr)
-		if !ok || Src(call.Fun) != "append" || len(call.Args) != 2 || Src(call.Args[0]) != Src(as.Lhs[0]) || !isFrom(call.Args[1]) {
+		if !ok || Src(call.Fun) != "append" || len(call.Args) != 2 || Src(call.Args[0]) != Src(as.Lhs[0]) || !c07IsFrom(call.Args[1]) {
 			return true
 		}
 		ready := Src(as.Lhs[0])
 		atom := func(e ast.Expr) (string, bool) {
 			c, ok := e.(*ast.CallExpr)
-			if !ok || len(c.Args) != 2 || !isFrom(c.Args[1]) {
+			if !ok || len(c.Args) != 2 || !c07IsFrom(c.Args[1]) {
 				return "", false
 			}
 			if s, ok := c.Fun.(*ast.SelectorExpr); !ok || s.Sel.Name != "Contains" {
@@ -272,7 +272,7 @@ func c07Admission(fd *ast.FuncDecl) (string, string) {
 			}
 			return "", false
 		}
-		if t, ok := boolTerm(is.Cond, atom); ok {
+		if t, ok := c07BoolTerm(is.Cond, atom); ok {
 			res = t
 		} else {
 			why = "the admission test has a shape the translator does not understand"
@@ -409,9 +409,9 @@ func c07Less(f *ast.File) (ok bool, descending bool, why string) {
 		if a == nil || b == nil {
 			return ""
 		}
-		k1 := entry(stripPretty(a), "ID")
+		k1 := entry(c07StripPretty(a), "ID")
 		k2 := entry(b, "SessionID")
-		if k1 == "" || k1 != k2 || stripPretty(a) == a {
+		if k1 == "" || k1 != k2 || c07StripPretty(a) == a {
 			return ""
 		}
 		return k1
